@@ -108,9 +108,20 @@ def gen_case(rng, force=None):
             # delete the outermost side-chain atoms of the target so that repair_heavy rebuilds them
             r = res[ti]
             side = [a for a in r if a.name not in ("N", "CA", "C", "O", "OXT", "CB")]
-            if side:
+            backbone_instead = len(res) >= 2 and sum(len(x) for x in res) >= 12 and rng.random() < 0.5
+            if side and not backbone_instead:
                 drop = {a.name for a in side[-rng.randint(1, min(3, len(side))) :]}
                 res[ti] = [a for a in r if a.name not in drop]
+            if backbone_instead:
+                # a missing BACKBONE atom: the carbonyl O of a residue that is not the last one is rebuilt from
+                # atoms of its own residue and the N of the next one (template atom N+1); the amide N of a residue
+                # that is not the first one from the previous residue's C (C-1)
+                which = rng.choice(["O", "O", "N"])
+                cand = [i for i in range(len(res)) if (i < len(res) - 1 if which == "O" else i > 0) and res[i][0].resn != "PRO"]
+                if cand:
+                    bi = rng.choice(cand)
+                    res[bi] = [a for a in res[bi] if a.name != which]
+                    feats["kind"] = "missing-backbone-" + which
             w = bump_water(rng, res, ti)
             if w and rng.random() < 0.5:
                 waters.append(w)
